@@ -224,6 +224,8 @@ def shard(sh):
     hs = {}
     try:
         for k in range(sh["n"]):
+            if run.enough():
+                break
             case = make_case(rng)
             run.case(common.sha12(case), nontrivial=features(case))
             v, out = run_case(run, e2, hs, case)
